@@ -228,6 +228,7 @@ pub fn run(ctx: &Ctx) -> Report {
      ragged and duplicate peer lists, 0-74 peers, IPv4 and [::1] IPv6 (stride 18), k in {0,1,2,3} initial drops in each phase, non-UDP / port-less URLs; `imdl torrent announce` run per scenario; \
      non-trivial = anything but the plain successful exchange; distinct by scenario label",
   );
+  report.rule.push_str("; error replies that are not UTF-8 or cut to 4..8 bytes, every action value alone in a 4-byte datagram, actions differing in the high bytes only, IPv6 lists of 6/12/24/30 bytes, a peer with port 0, drops in both phases, the torrent from standard input");
   report.correspondences.push("C12.exchange: datagrams sent and outcome of `imdl torrent announce` = Imdlv.Tracker.{connectReq,announceReq,runTracker,announceCommand}".into());
   let scen: Vec<Scenario> = match super::replay_cases(ctx) {
     Some(rc) => {
